@@ -581,6 +581,18 @@ def finish(ctx, level="proof"):
     return 1 if out_lines else 0
 
 
+def run_coqchk(ctx):
+    """thorough tier: re-check Properties/<ID>.vo and everything it depends on with the independent checker
+    and read the axioms it lists"""
+    rc, out = sh(["timeout", "3000", "coqchk", "-silent", "-o", "-Q", ".", "Verif", f"Verif.Properties.{ctx.pid}"], cwd=COQ, timeout=3100)
+    m = re.search(r"\* Axioms:(.*?)\n\s*\n\s*\*", out, re.S)
+    axioms = m.group(1).strip() if m else "?"
+    ctx.extra["coqchk"] = {"exit": rc, "axioms": axioms, "tail": out[-400:]}
+    if rc != 0 or axioms != "<none>":
+        ctx.violation("coqchk", {"what": "coqchk does not accept Properties/%s.vo or lists axioms" % ctx.pid, "axioms": axioms,
+                                 "output": out[-1500:]}, found_input=False)
+
+
 def standard_ledger(ctx):
     """Run the ledger and turn broken obligations into (input-less) violations."""
     led = ledger(ctx.pid, ctx.st)
